@@ -68,6 +68,9 @@ def setup():
         ok, hooks, lg = L.ensure_harness("debug", serde=True)
         if not ok:
             print("setup: note: harness with the serde feature does not build (C16 will report it)")
+        ok, hooks, lg = L.ensure_harness("release", sendsync=True)
+        if not ok:
+            print("setup: note: harness with the Send + Sync assertions does not build (C15 will report it)")
     print("setup ok in %.0fs" % (time.time() - t0))
     return 0
 
